@@ -279,13 +279,13 @@ def parse_stmts(src, what):
 
 
 SIZEOF_TYPES = ["IMAGE_SECTION_HEADER", "IMAGE_DATA_DIRECTORY", "IMAGE_NT_HEADERS32", "yr_load_command_t", "yr_mach_header_64_t",
-                "yr_mach_header_32_t", "yr_fat_header_t", "yr_fat_arch_64_t", "yr_fat_arch_32_t", "dex_header_t", "WORD", "DWORD"]
+                "yr_mach_header_32_t", "yr_fat_header_t", "yr_fat_arch_64_t", "yr_fat_arch_32_t", "dex_header_t", "WORD", "DWORD", "elf32_header_t", "elf64_header_t"]
 CONST_MACROS = ["MAX_PE_SECTIONS", "PE_PAGE_SIZE", "PE_SECTOR_SIZE"]
 
 
 def eval_constants():
     prog = ['#include <stdio.h>\n#include <stddef.h>\n#include <yara/pe.h>\n#include <yara/pe_utils.h>\n'
-            '#include <yara/dex.h>\n#include <yara/macho.h>\n#include <yara/endian.h>\nint main(){\n']
+            '#include <yara/dex.h>\n#include <yara/macho.h>\n#include <yara/elf.h>\n#include <yara/endian.h>\nint main(){\n']
     for t in SIZEOF_TYPES:
         prog.append('printf("sizeof_%s %%zu\\n", sizeof(%s));\n' % (t, t))
     for c in CONST_MACROS:
@@ -624,6 +624,54 @@ def _dotnet_depth(out, src):
     out.append("Definition dotnet_reset_rank : list nat := [%s].\n" % "; ".join("%d%%nat" % sr[n] for n in names))
     src["dotnet_depth"] = {"functions": names, "guards": guards, "calls": calls}
 
+# ------------------------------------------------------------------ elf.c module_load: header size guards
+def _elf_header_guards(sizeofs, out, src):
+    """each branch of module_load: which (class, data) it is for, the size it demands of the block, the header type it casts the
+    block to and the parser it calls (PARSE_ELF_HEADER(bits, bo) takes an elf<bits>_header_t)"""
+    what = "module_load (modules/elf/elf.c)"
+    etxt = _read("libyara/modules/elf/elf.c")
+    _, fbody, _ = function_def(etxt, "module_load", what)
+    fb = strip_comments(fbody)
+    if not re.search(r"#\s*define\s+PARSE_ELF_HEADER\s*\(\s*bits\s*,\s*bo\s*\)\s*\\\s*\n\s*int\s+parse_elf_header_##bits##_##bo\s*\(\s*\\\s*\n\s*ELF\s*\*\s*elf_data\s*,\s*\\\s*\n\s*elf##bits##_header_t\s*\*\s*elf\s*,", etxt):
+        raise GenError("translator cannot parse %s: PARSE_ELF_HEADER(bits, bo) no longer takes an elf##bits##_header_t* as second parameter" % what)
+    hdr = _read("libyara/include/yara/elf.h")
+    consts = {}
+    for n in ("ELF_CLASS_32", "ELF_CLASS_64", "ELF_DATA_2LSB", "ELF_DATA_2MSB"):
+        m = re.search(r"^\s*#\s*define\s+%s\s+(0[xX][0-9a-fA-F]+|\d+)" % n, hdr, re.M)
+        if not m:
+            raise GenError("translator cannot parse %s: %s is not a plain number" % (what, n))
+        consts[n] = int(m.group(1), 0)
+    branches = list(re.finditer(r"class_data\s*==\s*CLASS_DATA\s*\(\s*(ELF_CLASS_\d+)\s*,\s*(ELF_DATA_2[LM]SB)\s*\)\s*&&\s*block->size\s*>\s*sizeof\s*\(\s*(\w+)\s*\)\s*\)\s*\{", fb))
+    calls = len(re.findall(r"\bparse_elf_header_\d+_\w+\s*\(", fb))
+    if len(branches) != 4 or calls != 4 or len(re.findall(r"class_data\s*==", fb)) != 4:
+        raise GenError("translator cannot parse %s: expected 4 branches `class_data == CLASS_DATA(c, d) && block->size > sizeof(T)` each calling one parser, found %d / %d calls"
+                       % (what, len(branches), calls))
+    import genfold
+    rows = []
+    for b in branches:
+        i = b.end() - 1
+        body = fb[i + 1:genfold.match_brace(fb, i) - 1]
+        cm = re.search(r"(\w+)\s*=\s*\(\s*(\w+)\s*\*\s*\)\s*block_data\s*;", body)
+        pm = re.findall(r"\bparse_elf_header_(\d+)_(le|be)\s*\(\s*elf\s*,\s*(\w+)\s*,", body)
+        if not cm or len(pm) != 1 or pm[0][2] != cm.group(1):
+            raise GenError("translator cannot parse %s: branch for %s/%s does not cast block_data to one header and pass it to one parser" % (what, b.group(1), b.group(2)))
+        gt, ct = b.group(3), cm.group(2)
+        for t in (gt, ct):
+            if t not in sizeofs:
+                raise GenError("translator cannot parse %s: sizeof(%s) is not known" % (what, t))
+        bits, bo = int(pm[0][0]), pm[0][1]
+        rows.append((consts[b.group(1)], consts[b.group(2)], sizeofs[gt], sizeofs[ct], sizeofs["elf%d_header_t" % bits], bits, 1 if bo == "be" else 0,
+                     "%s/%s: block->size > sizeof(%s); (%s*) block_data; parse_elf_header_%d_%s" % (b.group(1), b.group(2), gt, ct, bits, bo)))
+    out.append("\n(* ---- elf.c module_load: (class, data, size demanded of the block, size of the type block_data is cast to,\n"
+               "        size of the header type of the parser called, bits of that parser, 1 = big-endian parser)\n")
+    for r in rows:
+        out.append("   %s\n" % r[7].replace("*)", "* )"))
+    out.append("*)\nDefinition ELF_CLASS_32 : Z := %d.\nDefinition ELF_CLASS_64 : Z := %d.\nDefinition ELF_DATA_2LSB : Z := %d.\nDefinition ELF_DATA_2MSB : Z := %d.\n"
+               % (consts["ELF_CLASS_32"], consts["ELF_CLASS_64"], consts["ELF_DATA_2LSB"], consts["ELF_DATA_2MSB"]))
+    out.append("Definition elf_header_branches : list (Z * Z * Z * Z * Z * Z * Z) := [%s].\n"
+               % "; ".join("(%d, %d, %d, %d, %d, %d, %d)" % r[:7] for r in rows))
+    src["elf_header_branches"] = [r[7] for r in rows]
+
 
 def translate():
     """returns (text of GenBounds.v, dict of translated source texts for the harness tie)"""
@@ -786,6 +834,7 @@ def translate():
     src["pe_rva_loop_cond"] = ctext
     _export_tables(sizeofs, consts, out, src)
     _dotnet_depth(out, src)
+    _elf_header_guards(sizeofs, out, src)
     src["constants"] = K
     return "".join(out), src
 
